@@ -2810,6 +2810,11 @@ class LinearOperator(object):
         # Pad the index with empty indices
         index = index + tuple(_noop_index for _ in range(ndimension - len(index)))
 
+        if len(index) > ndimension:
+            raise IndexError(
+                f"too many indices for {self.__class__.__name__} of dimension {ndimension} (got {len(index)})"
+            )
+
         # Integer indices follow python semantics: negative values count from the end, out-of-range values raise
         normalized_index = []
         for dim, (idx, size) in enumerate(zip(index, self.shape)):
